@@ -62,6 +62,9 @@ def seq_case(item):
                 if fee is None and spread is None:
                     kid = "a" if spec["shape"] == "T1c" else "b"
                     t.apply(["transact", [], kid, 2.0])
+            if abs(base) <= 1e-9 * max(1.0, float(spec.get("capital", 0.0))):
+                # a strategy worth exactly nothing has no weights to rebalance to (zero base: C10's ill-formed class)
+                return ("refused", viols, n, traded)
             scale = max(abs(base), float(spec.get("capital", 0.0))) if spec.get("noread") else max(abs(base), T.gross(t))
             temp = {"weights": dict(tw)}
             if cash is not None:
@@ -273,6 +276,36 @@ def backtest_case(item):
             if viols:
                 break
         return ("ok", viols, len(seen))
+    if tree == "flat_hedge":
+        # an ordinary strategy holding a hedge instrument (and a coupon-paying one) that drops out of the targets
+        import pandas as pd
+
+        idx = data.index
+        n = len(idx)
+        tw = pd.DataFrame({"a": [0.5] * n, "d": [0.25 if (i // 2) % 2 == 0 else float("nan") for i in range(n)], "b": [float("nan") if (i // 3) % 2 == 0 else 0.125 for i in range(n)]}, index=idx)
+        nonclosed = []
+
+        class Probe2(bt.core.Algo):
+            def __call__(self, target):
+                if target.root.name == "r" and "weights" in target.temp:
+                    seen.append((R.node_path(target), str(target.now), dict(target.temp["weights"]), {k: float(c.weight) for k, c in target.children.items()}, float(target.value)))
+                    for k, c in target.children.items():
+                        if k not in target.temp["weights"] and float(c.position) != 0.0:
+                            nonclosed.append((str(target.now), k, float(c.position)))
+                return True
+
+        root = bt.Strategy("r", [A.RunDaily(), A.WeighTarget("tw"), A.Rebalance(), Probe2()], [bt.Security("a"), bt.HedgeSecurity("d"), bt.CouponPayingHedgeSecurity("b")])
+        b = bt.Backtest(root, data, initial_capital=1e6, integer_positions=integer, progress_bar=False, additional_data={"tw": tw, "coupons": pd.DataFrame({"b": [0.0] * n}, index=idx)})
+        try:
+            b.run()
+        except Exception as e:
+            if rt.classify(e) == "guard":
+                return ("refused", [], 0)
+            return ("crash", [{"rule": "crash", "observed": rt.describe(e)}], 0)
+        viols = []
+        if nonclosed:
+            viols.append({"rule": "non_target_closed_in_backtest", "expected": {"child dropped from the targets": "closed"}, "observed": nonclosed[:3]})
+        return ("ok", viols, len(seen))
     if tree == "two":
         s1 = sub("s", sub_w, [bt.Security("a"), bt.Security("b")])
         root = bt.Strategy("r", [A.RunWeekly(), A.WeighSpecified(**root_w), A.Rebalance(), Probe()], [s1, bt.Security("d", multiplier=5)])
@@ -328,7 +361,7 @@ def configs(tier, seed):
     ]
     if tier == "quick":
         k = seed % len(costs)
-        plan = [("T1c", False, costs[0], {}, 2), ("T1c", False, costs[0], {}, 2, "exact", "idle"), ("T1c", False, costs[0], {}, 2, "exact", "tiny"), ("T1c", True, costs[(k + 1) % 5], {}, 2), ("T1c", False, costs[(k + 2) % 5], {"a": 2}, 2), ("T2", False, costs[0], {}, 2), ("T2", True, costs[(k + 1) % 5], {}, 2)]
+        plan = [("T1c", False, costs[0], {}, 2), ("T1c", False, costs[0], {}, 2, "exact", "idle"), ("T1c", False, costs[0], {}, 2, "exact", "tiny"), ("T1c", False, costs[0], {}, 2, "exact", "zeroquote"), ("T1c", True, costs[(k + 1) % 5], {}, 2), ("T1c", False, costs[(k + 2) % 5], {"a": 2}, 2), ("T2", False, costs[0], {}, 2), ("T2", True, costs[(k + 1) % 5], {}, 2)]
     else:
         plan = []
         for ci, cst in enumerate(costs):
@@ -340,10 +373,18 @@ def configs(tier, seed):
         plan.append(("T1c", False, costs[0], {}, 3, "exact", "idle"))
         plan.append(("T1c", True, costs[1], {}, 2, "exact", "idle"))
         plan.append(("T1c", False, costs[0], {}, 2, "exact", "tiny"))
+        plan.append(("T1c", False, costs[0], {}, 3, "exact", "zeroquote"))
+        plan.append(("T1c", True, costs[0], {}, 2, "exact", "zeroquote"))
     for p in plan:
         shape, integer, cst, mult, depth = p[:5]
         al = p[5] if len(p) > 5 else "exact"
         spec = dict(cst, shape=shape, integer=integer, mult=mult, capital=1024.0, ndates=4, alpha=al)
+        if len(p) > 6 and p[6] == "zeroquote":
+            # 'a' is held while its quote sits at exactly zero on two dates, then recovers
+            spec["ndates"] = 6
+            spec["noread"] = True
+            spec["prices"] = {"a": [4.0, 0.0, 0.0, 8.0, 4.0, 2.0], "b": [1.0, 2.0, 0.5, 1.0, 4.0, 2.0], "c": [2.0, 2.0, 4.0, 1.0, 2.0, 8.0]}
+            spec["preops"] = [["algos", [], {"weights": {"a": 0.25, "b": 0.25}}, "Rebalance"], ["next"], ["next"], ["next"]]
         if len(p) > 6 and p[6] == "tiny":
             # a book of a thousandth of a currency unit against prices in the hundred thousands: every
             # trade is a few billionths of a unit
@@ -422,6 +463,7 @@ def run(ctx):
     bts = [(tree, integer, dname, sw, rw) for tree in ("flat", "two", "three") for integer in (False, True) for dname in ("d12", "d25") for sw in ({"a": 0.5, "b": 0.25}, {"a": 0.75, "b": -0.25}) for rw in ({"s": 0.5, "d": 0.25}, {"s": 0.25, "d": -0.25})]
     bts += [("fi_flat", False, dname, sw, None) for dname in ("d12", "d25") for sw in ({"a": 0.5, "b": 0.25}, {"a": 0.75, "b": -0.25}, {"a": 0.25, "b": 0.25, "d": 0.5})]
     bts += [("fi_two", False, dname, None, None) for dname in ("d12", "d25")]
+    bts += [("flat_hedge", integer, dname, None, None) for dname in ("d12", "d25") for integer in (False, True)]
     for kind in kinds:
         for item, (status, viols, n) in ctx.run(kind, MOD, "backtest_case", bts, chunksize=2):
             ctx.add(states=1, transitions=n, traces_validated_against_impl=1, evaluations=n)
